@@ -134,7 +134,94 @@ func c06Conc(n, reloads int) (bool, string) {
 	return true, ""
 }
 
+
+// c06Err: program a ends every line in a runtime error of the given kind; programs b and c count
+// lines.  Whatever a does to itself, b and c process every line, and the store can still be read.
+func c06Err(kind string, n int) (bool, string) {
+	dir, err := os.MkdirTemp("", "c06err")
+	if err != nil {
+		return true, "skip"
+	}
+	defer os.RemoveAll(dir)
+	lines := make(chan *logline.LogLine)
+	store := metrics.NewStore()
+	var wg sync.WaitGroup
+	rt, err := runtime.New(lines, &wg, dir, store)
+	if err != nil {
+		return false, "runtime.New: " + err.Error()
+	}
+	write := func(name, src string) { _ = os.WriteFile(filepath.Join(dir, name), []byte(src), 0o644) }
+	body := map[string]string{
+		"expire-missing": "  del x[$1] after 1h\n",
+		"div-zero":       "  x[$1] = 1 / (len($1) - len($1))\n",
+		"conv":           "  x[$1] = strtol($1, 99)\n",
+		"capref":         "  /zzz(\\d+)/ || 1 {\n    x[$2]++\n  }\n",
+		"del-missing":    "  del x[$1]\n",
+	}[kind]
+	write("a.mtail", "counter x by k\ncounter la\n/^(\\w+)/ {\n"+body+"  la++\n}\n")
+	write("b.mtail", "counter lb\n/^/ {\n  lb++\n}\n")
+	write("c.mtail", "counter lc by k\n/^(\\w+)/ {\n  lc[$1]++\n}\n")
+	if err := rt.LoadAllPrograms(); err != nil {
+		return false, "load: " + err.Error()
+	}
+	for i := 0; i < n; i++ {
+		select {
+		case lines <- logline.New(context.Background(), "log", "w"+strconv.Itoa(i%3)):
+		case <-time.After(5 * time.Second):
+			return false, fmt.Sprintf("line %d of %d was not taken within 5 s: the dispatcher is stuck behind program a (%s)", i+1, n, kind)
+		}
+	}
+	total := func(name string) int64 {
+		var v int64
+		_ = store.Range(func(m *metrics.Metric) error {
+			if m.Name == name {
+				for _, lv := range m.LabelValues {
+					v += datum.GetInt(lv.Value)
+				}
+			}
+			return nil
+		})
+		return v
+	}
+	deadline := time.Now().Add(10 * time.Second)
+	for (total("lb") < int64(n) || total("lc") < int64(n)) && time.Now().Before(deadline) {
+		time.Sleep(time.Millisecond)
+	}
+	lb, lc := total("lb"), total("lc")
+	done := make(chan struct{})
+	go func() { _ = store.Gc(); close(done) }()
+	select {
+	case <-done:
+	case <-time.After(5 * time.Second):
+		return false, "Store.Gc did not return within 5 s after program a's runtime errors (" + kind + ")"
+	}
+	close(lines)
+	fin := make(chan struct{})
+	go func() { wg.Wait(); close(fin) }()
+	select {
+	case <-fin:
+	case <-time.After(3 * time.Second):
+	}
+	if lb != int64(n) || lc != int64(n) {
+		return false, fmt.Sprintf("%d lines, program a failing each with %s: program b counted %d, program c %d", n, kind, lb, lc)
+	}
+	return true, ""
+}
+
 func c06Run(r *runCtx, id string, f []string) {
+	if f[0] == "rterr" {
+		n, _ := strconv.Atoi(f[2])
+		ok, note := c06Err(f[1], n)
+		r.stat("rterr_" + f[1])
+		r.obs(id, "-")
+		if !ok {
+			r.replay(id, f...)
+			r.fail(id, "error-in-one-program-disturbs-others", "%s", note)
+		} else {
+			r.ok(id)
+		}
+		return
+	}
 	if f[0] == "conc" {
 		n, _ := strconv.Atoi(f[1])
 		k, _ := strconv.Atoi(f[2])
@@ -292,6 +379,9 @@ func init() {
 			cat := rtEncodeCatalogue()
 			emit := func(ops []string) { g.emit("rt", cat, strings.Join(ops, ";")) }
 			// lines flowing while another program is reloaded
+			for _, k := range []string{"expire-missing", "div-zero", "conv", "capref", "del-missing"} {
+				g.emit("rterr", k, "6")
+			}
 			g.emit("conc", "400", "60")
 			g.emit("conc", "1500", "250")
 			if g.thorough() {
